@@ -129,22 +129,24 @@ open Rml Rml.Bytes Rml.Chunk
 open Rml.Spec.Chunk (CsState Announced)
 
 /-- fuel-free big-step form of `Spec.Chunk.decodeSeqFuel` -/
-inductive Reads : Spec.Chunk.State → Option Nat → Bytes → List Msg → Prop
-  | nil (s : Spec.Chunk.State) (cur : Option Nat) : Reads s cur [] []
+inductive Reads : Spec.Chunk.State → Option Nat → Bytes → List Msg → Spec.Chunk.State → Option Nat → Prop
+  | nil (s : Spec.Chunk.State) (cur : Option Nat) : Reads s cur [] [] s cur
   | step (s s' : Spec.Chunk.State) (cur : Option Nat) (bs rest : Bytes) (m : Option Msg) (ms : List Msg)
       (hne : bs ≠ []) (hso : Spec.Chunk.strictOk s cur bs = true)
       (hc : Spec.Chunk.chunk s bs = some (s', m, rest)) (hmo : Spec.Chunk.msgOk m = true)
       (hlt : rest.length < bs.length)
-      (hrest : Reads s' (Spec.Chunk.nextCur (Spec.Chunk.csidOf bs) m) rest ms) :
-      Reads s cur bs (m.toList ++ ms)
+      (sE : Spec.Chunk.State) (cE : Option Nat)
+      (hrest : Reads s' (Spec.Chunk.nextCur (Spec.Chunk.csidOf bs) m) rest ms sE cE) :
+      Reads s cur bs (m.toList ++ ms) sE cE
 
-theorem reads_sound {s : Spec.Chunk.State} {cur : Option Nat} {bs : Bytes} {ms : List Msg} (h : Reads s cur bs ms) :
+theorem reads_sound {s sE : Spec.Chunk.State} {cur cE : Option Nat} {bs : Bytes} {ms : List Msg}
+    (h : Reads s cur bs ms sE cE) :
     ∀ (f : Nat) (acc : List Msg), bs.length ≤ f → Spec.Chunk.decodeSeqFuel f s cur bs acc = some (acc ++ ms) := by
   induction h with
   | nil s cur =>
     intro f acc _
     cases f <;> simp [Spec.Chunk.decodeSeqFuel]
-  | step s s' cur bs rest m ms hne hso hc hmo hlt _ ih =>
+  | step s s' cur bs rest m ms hne hso hc hmo hlt sE cE _ ih =>
     intro f acc hf
     cases f with
     | zero =>
@@ -160,7 +162,8 @@ theorem reads_sound {s : Spec.Chunk.State} {cur : Option Nat} {bs : Bytes} {ms :
       rw [ih f _ (by omega)]
       cases m <;> simp
 
-theorem reads_decodeSeq {bs : Bytes} {ms : List Msg} (h : Reads {} none bs ms) : Spec.Chunk.decodeSeq bs = some ms := by
+theorem reads_decodeSeq {bs : Bytes} {ms : List Msg} {sE : Spec.Chunk.State} {cE : Option Nat}
+    (h : Reads {} none bs ms sE cE) : Spec.Chunk.decodeSeq bs = some ms := by
   have := reads_sound h bs.length [] (Nat.le_refl _)
   simpa [Spec.Chunk.decodeSeq] using this
 
@@ -354,7 +357,7 @@ theorem cont_reads (m : Msg) (force drop : Bool) (h2 : Ser.Hdr) (hc : Ctx m forc
         Ser.addChunks ser force m drop true (Ser.slicesFuel f ser.maxCs rem) = (ser', bytes) ∧
         ser'.maxCs = ser.maxCs ∧ UpdAt h2.csid h2 ser.prev ser'.prev ∧
         UpdAt h2.csid (stOf h2 [] false) sp.streams sp'.streams ∧ sp'.cs = DesSpec.newCs sp.cs m ∧
-        ∀ tail ms, Reads sp' none tail ms → Reads sp (some h2.csid) (bytes ++ tail) (m :: ms) := by
+        ∀ tail ms sE cE, Reads sp' none tail ms sE cE → Reads sp (some h2.csid) (bytes ++ tail) (m :: ms) sE cE := by
   intro f
   induction f with
   | zero =>
@@ -386,7 +389,7 @@ theorem cont_reads (m : Msg) (force drop : Bool) (h2 : Ser.Hdr) (hc : Ctx m forc
       simp only [Ser.addChunks, List.append_nil]
       refine ⟨_, _, { cs := DesSpec.newCs sp.cs m, streams := mapInsert h2.csid (stOf h2 [] false) sp.streams },
         rfl, rfl, UpdAt.insert _ _ _, UpdAt.insert _ _ _, rfl, ?_⟩
-      intro tail ms hreads
+      intro tail ms sE cE hreads
       obtain ⟨hchunk, hstrict⟩ := spec_cont_chunk sp m force drop h2 hc pre (rem.take ser.maxCs) tail hget hple hsl
       have hcomplete : (pre ++ rem.take ser.maxCs).length = h2.len := by
         rw [htake, hc.len, ← hdata]
@@ -396,7 +399,7 @@ theorem cont_reads (m : Msg) (force drop : Bool) (h2 : Ser.Hdr) (hc : Ctx m forc
       rw [hmsg] at hchunk
       rw [List.append_assoc]
       have := Reads.step sp _ (some h2.csid) _ tail (some m) ms (headerBytes_append_ne _ _ _) hstrict hchunk hok
-        (by simp [headerBytes_eq]; omega) (by simpa [Spec.Chunk.nextCur] using hreads)
+        (by simp [headerBytes_eq]; omega) sE cE (by simpa [Spec.Chunk.nextCur] using hreads)
       simpa using this
     · -- more chunks follow
       have hdne : rem.drop ser.maxCs ≠ [] := by
@@ -412,18 +415,18 @@ theorem cont_reads (m : Msg) (force drop : Bool) (h2 : Ser.Hdr) (hc : Ctx m forc
       simp only at hadd
       rw [hadd]
       refine ⟨ser', _, sp', rfl, hmax, (UpdAt.insert _ _ _).trans hu1, (UpdAt.insert _ _ _).trans hu2, hcs', ?_⟩
-      intro tail ms hreads
+      intro tail ms sE cE hreads
       obtain ⟨hchunk, hstrict⟩ := spec_cont_chunk sp m force drop h2 hc pre (rem.take ser.maxCs) (b2 ++ tail) hget hple hsl
       have hnot : ¬ (pre ++ rem.take ser.maxCs).length = h2.len := by
         rw [List.length_append, List.length_take, hc.len, hdl]; omega
       rw [if_neg hnot] at hchunk
-      have hr := hrd tail ms hreads
+      have hr := hrd tail ms sE cE hreads
       have hbs : (Ser.headerBytes (if force then Fmt.f0 else Fmt.f3) h2 ++ rem.take ser.maxCs ++ b2) ++ tail
           = Ser.headerBytes (if force then Fmt.f0 else Fmt.f3) h2 ++ (rem.take ser.maxCs ++ (b2 ++ tail)) := by
         simp only [List.append_assoc]
       rw [hbs]
       have := Reads.step sp _ (some h2.csid) _ (b2 ++ tail) none (m :: ms) (headerBytes_append_ne _ _ _) hstrict hchunk rfl
-        (by simp [headerBytes_eq]; omega) (by
+        (by simp [headerBytes_eq]; omega) sE cE (by
           rw [csidOf_headerBytes _ h2 hc.wf]; simpa [Spec.Chunk.nextCur] using hr)
       simpa using this
 
@@ -631,7 +634,7 @@ theorem message_reads (ser : Ser.State) (sp : Spec.Chunk.State) (hSR : SR ser sp
       UpdAt (Ser.csidFor m.typ) h2 ser.prev ser'.prev ∧
       UpdAt (Ser.csidFor m.typ) (stOf h2 [] false) sp.streams sp'.streams ∧
       sp'.cs = DesSpec.newCs sp.cs m ∧
-      ∀ tail ms, Reads sp' none tail ms → Reads sp none (p.bytes ++ tail) (m :: ms) := by
+      ∀ tail ms sE cE, Reads sp' none tail ms sE cE → Reads sp none (p.bytes ++ tail) (m :: ms) sE cE := by
   unfold Ser.serialize at h
   by_cases hl : m.data.length > maxMsgLen
   · simp [hl] at h
@@ -652,7 +655,7 @@ theorem message_reads (ser : Ser.State) (sp : Spec.Chunk.State) (hSR : SR ser sp
         by rw [← hp], by rw [← hs'], ?_, ?_, rfl, ?_⟩
       · rw [← hs']; exact UpdAt.insert _ _ _
       · rw [← hc.csid]; exact UpdAt.insert _ _ _
-      · intro tail ms hreads
+      · intro tail ms sE cE hreads
         obtain ⟨hchunk, hstrict⟩ := hfo tail (by rw [hlen0]; simp)
         have hcomplete : ([] ++ ([] : Bytes)).length = h2.len := by rw [hlen0]; rfl
         rw [if_pos hcomplete] at hchunk
@@ -662,7 +665,7 @@ theorem message_reads (ser : Ser.State) (sp : Spec.Chunk.State) (hSR : SR ser sp
         rw [← hp]
         simp only [List.nil_append, List.append_nil] at hchunk hstrict ⊢
         have := Reads.step sp _ none _ tail (some m) ms (headerBytes_append_ne _ _ _) hstrict hchunk hok
-          (by simp [headerBytes_eq]; omega) (by simpa [Spec.Chunk.nextCur] using hreads)
+          (by simp [headerBytes_eq]; omega) sE cE (by simpa [Spec.Chunk.nextCur] using hreads)
         simpa using this
     · -- at least one payload byte
       rw [slices_cons _ _ hde] at hs' hp
@@ -681,7 +684,7 @@ theorem message_reads (ser : Ser.State) (sp : Spec.Chunk.State) (hSR : SR ser sp
           by rw [← hp], by rw [← hs'], ?_, ?_, rfl, ?_⟩
         · rw [← hs']; exact UpdAt.insert _ _ _
         · rw [← hc.csid]; exact UpdAt.insert _ _ _
-        · intro tail ms hreads
+        · intro tail ms sE cE hreads
           obtain ⟨hchunk, hstrict⟩ := hfo tail hsl
           have hcomplete : ([] ++ m.data.take ser.maxCs).length = h2.len := by rw [htake, hc.len]; rfl
           rw [if_pos hcomplete] at hchunk
@@ -690,7 +693,7 @@ theorem message_reads (ser : Ser.State) (sp : Spec.Chunk.State) (hSR : SR ser sp
           rw [hmsg] at hchunk
           rw [← hp, List.append_assoc]
           have := Reads.step sp _ none _ tail (some m) ms (headerBytes_append_ne _ _ _) hstrict hchunk hok
-            (by simp [headerBytes_eq]; omega) (by simpa [Spec.Chunk.nextCur] using hreads)
+            (by simp [headerBytes_eq]; omega) sE cE (by simpa [Spec.Chunk.nextCur] using hreads)
           simpa using this
       · -- several chunks
         have hdne : m.data.drop ser.maxCs ≠ [] := by
@@ -710,12 +713,12 @@ theorem message_reads (ser : Ser.State) (sp : Spec.Chunk.State) (hSR : SR ser sp
         refine ⟨h2, sp', hc, by rw [← hp], by rw [← hs']; exact hmax, ?_, ?_, hcs', ?_⟩
         · rw [← hs']; rw [← hk] at hu1 ⊢; exact (UpdAt.insert _ _ _).trans hu1
         · rw [hk] at hu2; rw [← hk]; rw [hk]; exact (by rw [← hk]; exact UpdAt.insert _ _ _ : UpdAt (Ser.csidFor m.typ) _ sp.streams _).trans hu2
-        · intro tail ms hreads
+        · intro tail ms sE cE hreads
           obtain ⟨hchunk, hstrict⟩ := hfo (b2 ++ tail) hsl
           have hnot : ¬ ([] ++ m.data.take ser.maxCs).length = h2.len := by
             rw [List.nil_append, List.length_take, hc.len]; omega
           rw [if_neg hnot] at hchunk
-          have hr := hrd tail ms hreads
+          have hr := hrd tail ms sE cE hreads
           rw [← hp]
           have hbs : (Ser.headerBytes fmt h2 ++ m.data.take ser.maxCs ++ b2) ++ tail
               = Ser.headerBytes fmt h2 ++ (m.data.take ser.maxCs ++ (b2 ++ tail)) := by
@@ -723,7 +726,7 @@ theorem message_reads (ser : Ser.State) (sp : Spec.Chunk.State) (hSR : SR ser sp
           rw [hbs]
           simp only [List.nil_append] at hchunk
           have := Reads.step sp _ none _ (b2 ++ tail) none (m :: ms) (headerBytes_append_ne _ _ _) hstrict hchunk rfl
-            (by simp [headerBytes_eq]; omega) (by
+            (by simp [headerBytes_eq]; omega) sE cE (by
               rw [csidOf_headerBytes _ h2 hc.wf]; simpa [Spec.Chunk.nextCur] using hr)
           simpa using this
 
